@@ -58,7 +58,11 @@ Inductive comb :=
 | CForEach
 | CFoldKeyed (o : ocode) (init : N) (ord : list N)
 | CReduceKeyed (o : ocode) (ord : list N)
-| CResolve (waker : bool).
+| CResolve (waker : bool)
+(* pipelines (composition) *)
+| CPipeFMFanout (g : gcode)                              (* flat_map -> fanout(rec0, rec1) *)
+| CPipeMFF (f : fcode) (g : gcode) (q : pcode)           (* map -> flat_map -> filter -> rec0 *)
+| CPipeFFF (q : pcode) (f : fcode) (o : ocode) (init : N). (* filter -> fanout(map -> rec0, fold -> rec1) *)
 
 (* ------------------------------------------------------------------ item decoding *)
 
@@ -117,6 +121,16 @@ Definition run_case (c : comb) (fuel : nat) (items : list (list N)) (dn : list s
   | CReduceKeyed o ord =>
     run1 (keyed_push (map_push R enc_kv) (reduce_keyed_upd (oev o)) ord) (([], [], false), d0)
          (fun s => [lg (snd s)]) fuel (map it_pair items)
+  | CPipeFMFanout g =>
+    run1 (flat_map_push (fanout_push R R) (gev g)) (None, ((false, false), (d0, d1)))
+         (fun s => [lg (fst (snd (snd s))); lg (snd (snd (snd s)))]) fuel (map it_n items)
+  | CPipeMFF f g q =>
+    run1 (map_push (flat_map_push (filter_push R (pev q)) (gev g)) (fev f)) (None, d0)
+         (fun s => [lg (snd s)]) fuel (map it_n items)
+  | CPipeFFF q f o init =>
+    run1 (filter_push (fanout_push (map_push R (fev f)) (accumulate_push (oev o) (@fold_outf N) R)) (pev q))
+         ((false, false), (d0, (Accumulating init, d1)))
+         (fun s => [lg (fst (snd s)); lg (snd (snd (snd s)))]) fuel (map it_n items)
   | CResolve w => run1 (resolve_push R w) ([], d0)
                        (fun s => [lg (snd s); map (fun f : N * nat => ESend (fst f)) (rev (fst s))])
                        fuel (map it_fut items)
@@ -154,13 +168,18 @@ Definition ref_items (c : comb) (items : list (list N)) (i : nat) : list N :=
     map enc_kv (emit_order ord (fold_left (fun m kv => kupd (fst kv) (reduce_keyed_upd (oev o) (snd kv)) m)
                                           (map it_pair items) []))
   | CResolve _ => map fst (map it_fut items)
+  | CPipeFMFanout g => flat_map (gev g) (map it_n items)
+  | CPipeMFF f g q => filter (pev q) (flat_map (gev g) (map (fev f) (map it_n items)))
+  | CPipeFFF q f o init =>
+    if Nat.eqb i 0 then map (fev f) (filter (pev q) (map it_n items))
+    else [fold_left (oev o) (filter (pev q) (map it_n items)) init]
   end.
 
 
 
 Definition n_down (c : comb) (dn : list script) : nat :=
   match c with
-  | CFanout | CUnzip => 2
+  | CFanout | CUnzip | CPipeFMFanout _ | CPipeFFF _ _ _ _ => 2
   | CDemux => length dn
   | CInspect => 2   (* second "log" is the closure's record of inspected items *)
   | CPersist _ _ => 2   (* second "log": the persisted Vec at the end *)
